@@ -345,6 +345,10 @@ pub fn coherence_part(opts: &Opts, rep: &mut Report) {
                     (vec![fill[0], c, img, fill[1]], vec![img2, ref_norm(fill[1], &cfg)]),
                     (vec![c, img, fill[1], fill[2]], vec![img, img2]),
                     (vec![fill[0], img, c, fill[1]], vec![img2, img]),
+                    // the image directly in front of the character (scans that run from the end meet the character first)
+                    (vec![fill[0], img, c], vec![ref_norm(fill[0], &cfg), img2]),
+                    (vec![fill[0], img, c, fill[1]], vec![ref_norm(fill[0], &cfg), img2]),
+                    (vec![fill[0], fill[2], img, c, c], vec![ref_norm(fill[0], &cfg), img2]),
                 ] {
                     if needle.iter().any(|&x| ref_norm(x, &cfg) != x && x != img) {
                         continue;
